@@ -39,6 +39,36 @@ CHECKS = [
         text='AIC/BIC variants and LRT on models with varied parameter counts, strictness expressions from the documented grammar against an own evaluator, rank_models eligibility/order/ties/NaN handling, and bootstrap/cdd/shrinkage/delta-method/simeval statistics against direct numpy/scipy references.',
         note='Only documented formulas are asserted (listed in pv/ref/stats.py); clauses are skipped where the docs are ambiguous (LRT df with differing numbers of fixed parameters, mixed BIC for dead parameters).',
     ),
+    dict(
+        id='C01', level='exploration',
+        technique='property-based testing: grammar-generated NM-TRAN control streams, differential against an independent reference NM-TRAN interpreter (text -> values) with numeric evaluation of the model IR',
+        text='Control streams generated from a grammar of NM-TRAN ($PRED or $PK/$ERROR with ADVAN1-4,10-12 x TRANS, IF/ELSEIF/ELSE, functions, operator spellings, $THETA/$OMEGA/$SIGMA layouts incl. BLOCK/SAME/SD/CORR/CHOLESKY/repeats/FIX positions, layout noise) are read by pharmpy; parameters, random-effect covariance and block structure, every definitely-assigned variable, Y, the ODE right-hand side per NONMEM compartment, dose compartment, lag and bioavailability are compared at sampled inputs with the meaning the reference interpreter (own recursive-descent Fortran-precedence parser + PREDPP library table) gives the same text. Violations are attributed to switchable generator shapes by ablation so that known findings exclude exactly their shape.',
+        note='The reference interpreter is my reading of the NONMEM guides (no NONMEM available); its parser is cross-checked against the generator AST on every case. Models are read without a dataset, so CMT/RATE-dependent routing, ADVAN5/7 and $DES are not covered yet (see DESIGN.md). Tolerance 1e-9 relative (1e-6 for TRANS5/6 rate formulas).',
+    ),
+    dict(
+        id='C13', level='exploration',
+        technique='property-based testing: generated data-file texts / $INPUT / IGNORE-ACCEPT lists vs a reference reader written from docs/NONMEM.rst; write_model/read_model round trip of generated DataFrames',
+        text='Data files built from the documented lexical forms (separators, NULL items, Fortran numbers, 24-character limit, comment lines, short/long rows, DROP/SKIP, synonyms, filters) are read through read_nonmem_dataset and through complete models and compared with a pharmpy-free reference reader, rule by rule (named clauses); numeric DataFrames survive write_model/read_model bit-exactly.',
+        note='Only rules stated in docs/NONMEM.rst are asserted; corners the docs leave open are rejected (counted). TIME/DATE columns, CRLF, several $DATA records not generated.',
+    ),
+    dict(
+        id='C14', level='exploration',
+        technique='property-based testing: generated event tables vs a plain per-individual chronological reference walker (no pandas)',
+        text='Event tables (1-6 individuals, dose/observation interleavings with ties, ADDL/II, SS, EVID 0-4, two routes, optional MDV/EVID/CMT/RATE columns) attached to basic PK models; every derivation (observations, doses, MDV, EVID, dose id, time after dose, ADDL expansion, ADMID/CMT, baselines, time-varying covariates, counts) must equal the reference walker, and column-adding functions must keep records, values, dtypes and order.',
+        note='Records whose value the docstrings leave open (before first dose, simultaneous doses, ties across resets) are not compared, only counted; the walker reproduces the numbers asserted by the repository tests on pheno.dta / pef.csv (selfcheck).',
+    ),
+    dict(
+        id='C16', level='fault_enumeration',
+        technique='fault injection: in-process interposition on file-system calls, every crash point (with torn writes) and ENOSPC point of generated workloads enumerated; oracle = reference model of committed state after restart',
+        text='Workloads of store/retrieve/log/annotation operations over models sharing datasets run fault-free (faithfulness) and then once per file-system operation k with a simulated process death at k (later operations fail too; descriptors closed without flush; locks released as by process death) or an ENOSPC error; a fresh database/context is opened and checked: no partial entry visible as complete, earlier entries intact, other models (incl. same dataset) still storable, log rows intact. The simulated crash is validated against real forked children killed with os._exit at the same operation.',
+        note='Crash granularity is the intercepted Python-level system call (buffered writes become one write with a generated torn prefix); OS page-cache reordering is not modelled.',
+    ),
+    dict(
+        id='C20', level='exploration',
+        technique='property-based testing: reference writer of NONMEM output files (ext/phi/cov/cor/coi/$TABLE/lst stub) -> parse; JSON round trip of generated results',
+        text='Generated parameter configurations and values are rendered by a pharmpy-free writer in NONMEM fixed-width formats (validated by regenerating the checked-in pheno_real files byte for byte) and read back through NONMEMTableFile and read_modelfit_results; values, indices, labels, designated special rows, parameter renaming, cov/cor/coi/se relations at printed precision, individual estimates; ModelfitResults survive to_json/read_results.',
+        note='Expected cell values are float(printed field); relations between matrices use tolerances derived from 6 printed digits. lst variants limited to five status-line templates.',
+    ),
 ]
 
 ALL = ['C%02d' % i for i in range(1, 21)]
